@@ -18,8 +18,8 @@ type parserAnchors struct {
 	addErrAt     *ssa.Function // the function that appends to the error list
 	errRecorders map[*ssa.Function]bool
 	ctor         *ssa.Function
-	tolerant     *types.Var // Parser field reached from WithTolerantMode
-	smart        *types.Var // Parser field reached from WithSmartSemicolon
+	tolerant     *types.Var          // Parser field reached from WithTolerantMode
+	smart        *types.Var          // Parser field reached from WithSmartSemicolon
 	flow         map[string][]string // recorded option flows
 	problems     []string
 }
@@ -166,14 +166,14 @@ func (c *Ctx) optionFlow(a *parserAnchors, setter string) *types.Var {
 type atomKind int
 
 const (
-	atOpaque atomKind = iota
-	atPeekType          // PeekToken.Type == k
-	atCurType           // CurrentToken.Type == k
-	atPeekNewline       // PeekToken.AfterNewline
-	atFlag              // bool field of Parser
-	atCall              // bool call
-	atNil               // value == nil
-	atCmp               // other comparison
+	atOpaque      atomKind = iota
+	atPeekType             // PeekToken.Type == k
+	atCurType              // CurrentToken.Type == k
+	atPeekNewline          // PeekToken.AfterNewline
+	atFlag                 // bool field of Parser
+	atCall                 // bool call
+	atNil                  // value == nil
+	atCmp                  // other comparison
 )
 
 type atom struct {
